@@ -10,7 +10,7 @@ from ..fsim import INT_MAX, INT_MIN, arith, w32
 PROPERTY = "C11"
 LEVEL = "exploration"
 TIMEOUT = 240
-BUDGET = {"quick": 150, "thorough": 1500}
+BUDGET = {"quick": 600, "thorough": 3600}
 REQUIRED_MONITORS = ["fold_calls"]
 RULE = ("Seeded random constant expressions over the int32 boundary set (negative dividends/divisors, products, "
         "shifts and powers that overflow, literals in bases 2/8/10/16) placed in every folding position: typed "
